@@ -86,6 +86,20 @@ fn side_check(a: &Analysis, t: &Txn, side: &Side, ent: usize, sender: bool, out:
                         _ => false,
                     })
                     .collect();
+                // "unanswered": an acknowledgement of the guarded PDU that was delivered after its
+                // last transmission (and well before the fault) had stopped the count; a limit fault
+                // declared all the same counted expirations that were answered
+                if let Some(last) = g.last() {
+                    let want_dir = if sender { cfdp_core::pdu::PDUDirective::EoF } else { cfdp_core::pdu::PDUDirective::Finished };
+                    let answered = side.recvd.iter().any(|r| {
+                        r.vt > last.vt + 1_000
+                            && r.vt + 1_000 < tf
+                            && matches!(r.pdu.as_ref().and_then(|p| op_of(p)), Some(Operations::Ack(a)) if a.directive == want_dir && (!sender || a.condition == Condition::NoError))
+                    });
+                    if answered {
+                        out.push(vv("C17", "limit_fault_although_answered", format!("{}/PositiveLimitReached", role), format!("txn {:?}: {} declared PositiveLimitReached at {}us although the acknowledgement of its last {} (sent at {}us) had been delivered in between", t.key, role, tf, kind.name(), last.vt)));
+                    }
+                }
                 if let Some(first) = g.first() {
                     if tf < first.vt + limit * t_c {
                         out.push(vv("C17", "limit_fault_too_early", format!("{}/PositiveLimitReached", role), format!("txn {:?}: {} declared PositiveLimitReached at {}us, {}us after the first {} transmission; limit {} x ack timeout {}s", t.key, role, tf, tf - first.vt, kind.name(), limit, e.t_ack)));
